@@ -20,6 +20,7 @@ InitState(nm, np) ==
   [slots |-> << <<1>>, <<2>> >>,
    index |-> [m \in 1..nm |-> IF m <= 2 THEN 0 ELSE -1],
    parent |-> [m \in 1..nm |-> IF m <= 2 THEN m ELSE 0],
+   output |-> <<1, 2>>,                       \* Project.output: the module object the attribute refers to
    pats |-> << <<>>, <<>> >>,
    pproj |-> [q \in 1..np |-> 0],
    nmod |-> [q \in 1..np |-> 0]]
@@ -76,6 +77,7 @@ Coherent(s) ==
   /\ \A P \in 1..2 : \A i \in 1..Len(s.slots[P]) :
         LET m == s.slots[P][i] IN m # 0 => s.index[m] = i - 1 /\ s.parent[m] = P
   /\ \A P \in 1..2 : Len(s.slots[P]) >= 1 /\ s.slots[P][1] = P            \* position 0 holds the output
+  /\ \A P \in 1..2 : s.output[P] = s.slots[P][1]                          \* and Project.output is that module
   /\ \A m \in DOMAIN s.parent : s.parent[m] # 0 => Has(s.slots[s.parent[m]], m)
   /\ \A P \in 1..2 : \A i, j \in 1..Len(s.slots[P]) : i # j /\ s.slots[P][i] # 0 => s.slots[P][i] # s.slots[P][j]
   /\ \A q \in DOMAIN s.pproj : s.pproj[q] # 0 <=> \E P \in 1..2 : Has(s.pats[P], q)
@@ -84,6 +86,7 @@ WhyIncoherent(s) ==
   IF ~(\A P \in 1..2 : \A i \in 1..Len(s.slots[P]) :
         LET m == s.slots[P][i] IN m # 0 => s.index[m] = i - 1 /\ s.parent[m] = P) THEN "index-or-parent"
   ELSE IF ~(\A P \in 1..2 : Len(s.slots[P]) >= 1 /\ s.slots[P][1] = P) THEN "output-not-at-0"
+  ELSE IF ~(\A P \in 1..2 : s.output[P] = s.slots[P][1]) THEN "output-attribute-not-module-0"
   ELSE IF ~(\A m \in DOMAIN s.parent : s.parent[m] # 0 => Has(s.slots[s.parent[m]], m)) THEN "parent-without-slot"
   ELSE IF ~(\A P \in 1..2 : \A i, j \in 1..Len(s.slots[P]) : i # j /\ s.slots[P][i] # 0 => s.slots[P][i] # s.slots[P][j]) THEN "module-twice"
   ELSE IF ~(\A q \in DOMAIN s.pproj : s.pproj[q] # 0 <=> \E P \in 1..2 : Has(s.pats[P], q)) THEN "pattern-owner"
